@@ -119,4 +119,4 @@ def search(ctx, deep):
     return stats, out + fails[3:]
 
 def replay(obj):
-    return oracles.impl_models(obj["text"], obj.get("h", 3))
+    return oracles.replay_record(obj, 3)
